@@ -379,3 +379,5 @@ def run(ctx):
         "clickhouse / postgres / s3 / socket / stdout outputs are not covered",
     ]
     ctx.classify(recs)
+    import c19_pipeline
+    c19_pipeline.stage(ctx)      # pipeline side: Batch.ForEach yields exactly the deliverable events (recycled event objects, split)
